@@ -3,6 +3,7 @@ process table and crash injection between any two lines of pidfile.py, compared 
 Model/Pidfile.v (evaluated by the Coq kernel), and judged directly against the property."""
 import errno
 import os
+import re
 import shutil
 import sys
 import tempfile
@@ -53,6 +54,13 @@ class World:
             def getpid(self):
                 return OSPIDS[world.cur]
 
+            def open(self, path, flags, *a, **k):
+                fd = os.open(path, flags, *a, **k)
+                if flags & os.O_CREAT:          # a temporary file made without tempfile.mkstemp
+                    world.fds.append(fd)
+                    world.done_calls += 1
+                return fd
+
             def write(self, fd, data):
                 r = os.write(fd, data)
                 world.done_calls += 1
@@ -90,12 +98,16 @@ class World:
                 world.done_calls += 1
                 return fd, name
 
-        self.saved = (pf.os, pf.tempfile)
+        # (a tree that does not import tempfile into pidfile.py makes its temporary file some other way: through os)
+        self.saved = (pf.os, getattr(pf, "tempfile", None))
         pf.os = OsProxy()
-        pf.tempfile = TempProxy()
+        if self.saved[1] is not None:
+            pf.tempfile = TempProxy()
 
     def close(self):
-        self.pf.os, self.pf.tempfile = self.saved
+        self.pf.os = self.saved[0]
+        if self.saved[1] is not None:
+            self.pf.tempfile = self.saved[1]
         for fd in self.fds:
             try:
                 os.close(fd)
@@ -120,7 +132,7 @@ class World:
             return None
 
     def ntemps(self):
-        return len([f for f in os.listdir(os.path.join(self.root, "d")) if not f.startswith("pid")])
+        return len([f for f in os.listdir(os.path.join(self.root, "d")) if not re.fullmatch(r"pid\d+", f)])
 
     def state(self):
         return {
@@ -368,6 +380,9 @@ def oracle_step(op, r, before, after, live_before, complete):
                     fails.append("stale-not-taken: after create the file holds %r, expected %r" % (after["files"][fid], want))
             elif fid < 100 and r[0] == "runtime" and not names_live_other and not (w == me):
                 fails.append("refused-stale: create refused although the file was absent/stale (%r)" % (cur,))
+            elif fid < 100 and r[0] == "exc" and not names_live_other:
+                fails.append("refused-stale: create failed with %s although the pid file was absent/stale (%r) and no live process owns it"
+                             % (r[1], cur))
         # (d) files of other instances: any pid-file path that vanished or changed because of this
         # instance must have carried this instance's pid (unlink) or have been stale (install)
         for p in before["files"]:
